@@ -462,3 +462,140 @@ Definition mismatches (cs : list (eth_tx * obs)) : list nat := mismatches_from 0
 (** shorthand used by the generated case files *)
 Definition hx (s : string) : bytes := unhex_or_nil s.
 Definition hxs (l : list string) : bytes := concat (map unhex_or_nil l).
+
+(** * unwrapping by hash: [UnwrapEthereumMsg] (x/evm/types/utils.go)
+
+    A decoded Cosmos transaction carries a list of [MsgEthereumTx].  Each has
+    the TxData ([Data]), the recorded hash ([Hash], hex text) and the deprecated
+    [From] text.  Nothing on the decoding path validates [Hash] or [From]
+    ([ValidateBasic] is not part of TxDecoder), so both are arbitrary text here. *)
+Record emsg := mk_emsg {
+  m_data : tx_data;     (* Data, unpacked *)
+  m_hash : string;      (* Hash: what the sender of the envelope recorded *)
+  m_from : string }.    (* From *)
+
+(** [MsgEthereumTx.AsTransaction].  [None] = a To / access-list text that is not
+    "0x" + hex digits of the right length: [FromEthereumTx] never writes such text
+    ([roundtrip_fields]); the scan below passes over such a member. *)
+Definition as_tx (m : emsg) : option eth_tx := of_txdata (m_data m).
+
+Section Unwrap.
+  (** Keccak-256 enters as an arbitrary function *)
+  Variable hash : bytes -> bytes.
+
+  (** [FromEthereumTx]: [Data := NewTxDataFromTx(tx)], [Hash := tx.Hash().Hex()];
+      [From] stays empty ([BuildTx] clears it) *)
+  Definition from_eth_tx (csum : bytes -> nat -> bool) (tx : eth_tx) : option emsg :=
+    match to_txdata csum tx with
+    | Wrapped d => Some (mk_emsg d (hash_hex (tx_hash hash tx)) EmptyString)
+    | _ => None
+    end.
+
+  (** [ethMsg.Hash = txHash.Hex()] *)
+  Definition refresh (m : emsg) (h : bytes) : emsg := mk_emsg (m_data m) (hash_hex h) (m_from m).
+
+  (** [UnwrapEthereumMsg(tx, ethHash)]: scan the messages in order, recompute the
+      Ethereum hash of each one, overwrite its recorded hash with it, return the
+      first message whose recomputed hash is the requested one; none = the error
+      "eth tx not found". *)
+  Fixpoint unwrap (msgs : list emsg) (h : bytes) : option emsg :=
+    match msgs with
+    | [] => None
+    | m :: r =>
+        match as_tx m with
+        | Some tx => if bytes_eq_dec (tx_hash hash tx) h then Some (refresh m (tx_hash hash tx)) else unwrap r h
+        | None => unwrap r h
+        end
+    end.
+
+  (** the same scan, instrumented for the comparison with the implementation:
+      position of the message returned and the envelope as the call leaves it (the
+      recorded hash of every visited message has been overwritten) *)
+  Fixpoint unwrap_scan (i : nat) (msgs : list emsg) (h : bytes) : list emsg * option (nat * emsg) :=
+    match msgs with
+    | [] => ([], None)
+    | m :: r =>
+        match as_tx m with
+        | Some tx =>
+            let m' := refresh m (tx_hash hash tx) in
+            if bytes_eq_dec (tx_hash hash tx) h then (m' :: r, Some (i, m'))
+            else let '(r', res) := unwrap_scan (S i) r h in (m' :: r', res)
+        | None => let '(r', res) := unwrap_scan (S i) r h in (m :: r', res)
+        end
+    end.
+
+  (** NOT the code of /repo: the scan with a fast path for envelopes of exactly one
+      message (returned at once: no hash recomputed, none compared, recorded hash
+      not refreshed).  Kept to state what such a shortcut breaks
+      ([unwrap_fast_refuted]). *)
+  Definition unwrap_fast (msgs : list emsg) (h : bytes) : option emsg :=
+    match msgs with
+    | [m] => Some m
+    | _ => unwrap msgs h
+    end.
+End Unwrap.
+
+(** ** comparison with the implementation: lookups by hash over envelopes *)
+Record lookup := mk_lk {
+  lk_env : list nat;                      (* members of the envelope: positions in the pool *)
+  lk_forge_hash : list (nat * string);    (* (position in the envelope, text put into Hash before encoding) *)
+  lk_forge_from : list (nat * string);    (* (position in the envelope, text put into From before encoding) *)
+  lk_req : bytes;                         (* the requested hash *)
+  lk_found : option nat;                  (* position of the message UnwrapEthereumMsg returned; None = error *)
+  lk_after : list (string * string) }.    (* (Hash, From) of every member after the call *)
+
+Record unwrap_case := mk_uc {
+  uc_pool : list eth_tx;                  (* the signed transactions *)
+  uc_table : list (bytes * bytes);        (* graph of Keccak on their hash preimages: (MarshalBinary, Hash) *)
+  uc_lookups : list lookup }.
+
+(** the hash function given by a finite graph; a preimage the implementation did
+    not hash gets the empty hash (and the comparison fails) *)
+Definition table_hash (tbl : list (bytes * bytes)) (pre : bytes) : bytes :=
+  match find (fun e => eqb bytes_eq_dec (fst e) pre) tbl with Some e => snd e | None => [] end.
+
+Fixpoint update_nth {A} (f : A -> A) (n : nat) (l : list A) : list A :=
+  match l, n with
+  | [], _ => []
+  | x :: r, O => f x :: r
+  | x :: r, S k => x :: update_nth f k r
+  end.
+
+Definition forge_hashes (fs : list (nat * string)) (msgs : list emsg) : list emsg :=
+  fold_left (fun ms f => update_nth (fun m => mk_emsg (m_data m) (snd f) (m_from m)) (fst f) ms) fs msgs.
+Definition forge_froms (fs : list (nat * string)) (msgs : list emsg) : list emsg :=
+  fold_left (fun ms f => update_nth (fun m => mk_emsg (m_data m) (m_hash m) (snd f)) (fst f) ms) fs msgs.
+
+Fixpoint all_some {A} (l : list (option A)) : option (list A) :=
+  match l with
+  | [] => Some []
+  | Some x :: r => match all_some r with Some t => Some (x :: t) | None => None end
+  | None :: _ => None
+  end.
+
+Definition onat_eq_dec : forall a b : option nat, {a = b} + {a <> b}.
+Proof. decide equality. apply PeanoNat.Nat.eq_dec. Defined.
+Definition after_eq_dec : forall a b : list (string * string), {a = b} + {a <> b}.
+Proof. apply list_eq_dec. decide equality; apply string_dec. Defined.
+
+Definition check_lookup (hash : bytes -> bytes) (wrapped_pool : list (option emsg)) (lk : lookup) : bool :=
+  match all_some (map (fun i => nth i wrapped_pool None) (lk_env lk)) with
+  | None => false
+  | Some msgs0 =>
+      let msgs := forge_froms (lk_forge_from lk) (forge_hashes (lk_forge_hash lk) msgs0) in
+      let '(after, res) := unwrap_scan hash 0 msgs (lk_req lk) in
+      eqb onat_eq_dec (option_map fst res) (lk_found lk) &&
+      eqb after_eq_dec (map (fun m => (m_hash m, m_from m)) after) (lk_after lk)
+  end.
+
+Definition check_unwrap_case (c : unwrap_case) : bool :=
+  let hash := table_hash (uc_table c) in
+  let wrapped_pool := map (from_eth_tx hash no_csum) (uc_pool c) in
+  forallb (check_lookup hash wrapped_pool) (uc_lookups c).
+
+Fixpoint mismatches_unwrap_from (i : nat) (cs : list unwrap_case) : list nat :=
+  match cs with
+  | [] => []
+  | c :: r => if check_unwrap_case c then mismatches_unwrap_from (S i) r else i :: mismatches_unwrap_from (S i) r
+  end.
+Definition mismatches_unwrap (cs : list unwrap_case) : list nat := mismatches_unwrap_from 0 cs.
